@@ -36,6 +36,11 @@ MUST_REFUSE = {'truncate': 'truncated_cache', 'name_mismatch': 'other_build_name
                'wrong_type_arg': 'wrong_typed_argument', 'cache_is_dir': 'cache_path_is_directory'}
 
 
+NAMED_SHAPES = {'not-json': 'non_json_cache', 'not-utf8': 'non_json_cache', 'empty': 'non_json_cache',
+                'plain-json-no-gzip': 'non_gzip_cache', 'wrong-software': 'other_software_cache',
+                'newer-version': 'newer_format_cache'}
+
+
 class NotCalled(Exception):
     pass
 
@@ -120,6 +125,17 @@ def attempt(sh, w, cls, label, api, call, program, data=None):
     if entered or exc is None:
         sh.count('accepted')
         sh.count('accepted:' + cls)
+        if cls == 'json_shape':
+            base = label.split('=')[0].split('|')[0]
+            sh.count('accepted_shape:' + base)
+            if base in NAMED_SHAPES:
+                # refusal reasons the property names: not JSON, written by other software, a newer format
+                sh.evaluations += 1
+                sh.violation('%s_not_refused|%s' % (NAMED_SHAPES[base], api),
+                             {'label': label, 'entered': bool(entered)},
+                             {'kind': 'c15', 'class': cls, 'label': label, 'api': api, 'program': program,
+                              'steps': list(w.steps), 'cache_rel': w.cache_rel})
+                return 'violation'
         if cls in MUST_REFUSE:
             # classes the property names as refusal reasons (a proper prefix of a valid cache file is
             # "truncated", a different build name, a wrong-typed argument, a directory at the cache path):
